@@ -414,13 +414,17 @@ fn run_sequence(
     let next = Arc::new(AtomicUsize::new(0));
     let items = Arc::new(items);
     let bad = Arc::new(AtomicUsize::new(0));
+    let held: Arc<Mutex<Vec<std::net::TcpStream>>> = Arc::new(Mutex::new(Vec::new()));
+    let mid_health_failed = Arc::new(AtomicUsize::new(0));
     let mut ts = Vec::new();
     for _ in 0..par.max(1) {
         let (ctx, rt, items, next, lines, bad, id) =
             (ctx.clone(), rt.clone(), items.clone(), next.clone(), lines.clone(), bad.clone(), id.to_string());
+        let (held, mid_health_failed) = (held.clone(), mid_health_failed.clone());
         ts.push(std::thread::spawn(move || loop {
             let i = next.fetch_add(1, Ordering::SeqCst);
-            if i >= items.len() {
+            // a failed health request ends the sequence: the server is already known to be wedged
+            if i >= items.len() || mid_health_failed.load(Ordering::SeqCst) > 0 {
                 break;
             }
             let c = (i + 1) as u32;
@@ -431,6 +435,24 @@ fn run_sequence(
                     }
                     match run_conn(&rt, addr, case) {
                         Some(recv) => lines.lock().unwrap().push((i, fc_line(&rt, &format!("{}.{}", id, c), mode, case, &recv))),
+                        None => {
+                            bad.fetch_add(1, Ordering::SeqCst);
+                        }
+                    }
+                }
+                Item::Hold(prefix) => {
+                    ctx.log(Ev::Fault(c, "trunc"));
+                    match open(addr) {
+                        Some(mut s) => {
+                            if !prefix.is_empty() {
+                                let _ = s.write_all(prefix);
+                            }
+                            held.lock().unwrap().push(s);
+                            // with that connection open and silent, others are still served
+                            if !health(addr) {
+                                mid_health_failed.fetch_add(1, Ordering::SeqCst);
+                            }
+                        }
                         None => {
                             bad.fetch_add(1, Ordering::SeqCst);
                         }
@@ -478,9 +500,12 @@ fn run_sequence(
     for t in ts {
         let _ = t.join();
     }
-    // health on a FRESH connection
-    let healthy = health(addr);
+    // health on a FRESH connection (held connections are still open and silent)
+    let healthy = mid_health_failed.load(Ordering::SeqCst) == 0 && health(addr);
     ctx.log(Ev::Health(healthy));
+    for s in held.lock().unwrap().drain(..) {
+        close_rst(rt, s);
+    }
     let closed = close_with_deadline(rt, server, Duration::from_secs(60));
     let log = ctx.snapshot();
     let mut ls = lines.lock().unwrap().clone();
@@ -712,9 +737,28 @@ fn run_tls_sequence(
 #[derive(Clone, Debug)]
 enum Item {
     Conn(Case),
+    /// connect, send these bytes (possibly none: a completely silent connection, or an
+    /// unfinished request head) and STAY connected while a health request is made on a
+    /// fresh connection; the connection is only closed after the sequence's final health
+    /// request.  An idle or stalled connection must not hold up the others.
+    Hold(Vec<u8>),
     /// a valid request through a gated handler: full Start/Tick/Done/RespDelivered trace
     Lifecycle,
     Panic,
+}
+
+/// What a held connection has sent before going silent.
+fn gen_hold(rng: &mut Rng) -> Vec<u8> {
+    match rng.below(6) {
+        0 | 1 => Vec::new(),
+        2 => b"G".to_vec(),
+        3 => b"GET /health HTTP/1.1\r\nhost: loc".to_vec(),
+        4 => vec![0x16, 0x03, 0x01],
+        _ => {
+            let v = v_post();
+            v[..v.len() - 3].to_vec()
+        }
+    }
 }
 
 fn main() {
@@ -752,6 +796,9 @@ fn main() {
             if i % 100 == 42 {
                 mixed.push(Item::Panic);
             }
+            if i % 400 == 199 {
+                mixed.push(Item::Hold(gen_hold(&mut rng)));
+            }
         }
         jobs.push((format!("L{}", mode_name(m)), m, mixed, 6));
     }
@@ -767,9 +814,10 @@ fn main() {
         } as usize;
         let mut items = Vec::new();
         for _ in 0..n {
-            let it = match rng.below(10) {
+            let it = match rng.below(11) {
                 0 | 1 => Item::Lifecycle,
                 2 => Item::Panic,
+                10 => Item::Hold(gen_hold(&mut rng)),
                 3 | 4 => Item::Conn(random_case(&mut rng)),
                 _ => Item::Conn(rng.pick(&small).clone()),
             };
